@@ -21,9 +21,10 @@ structure Safe (x : Char) : Prop where
   notMinus : x ≠ '-'
   lits : ∀ s ∈ [" ", " = ", ";", "", ".", "repeated ", "optional ", "message", "enum", "oneof", "map<", ", ", ">", " {", " {}", "}", "rpc ", "(", ") returns (", ")", "stream ", "service"],
     (String.toList s).all (· != x) = true
+  only : x = '\n' ∨ x = '/'
 
-theorem safe_nl : Safe '\n' := ⟨by decide, by decide, by decide⟩
-theorem safe_slash : Safe '/' := ⟨by decide, by decide, by decide⟩
+theorem safe_nl : Safe '\n' := ⟨by decide, by decide, by decide, Or.inl rfl⟩
+theorem safe_slash : Safe '/' := ⟨by decide, by decide, by decide, Or.inr rfl⟩
 
 section
 variable {x : Char} (hx : Safe x)
@@ -216,11 +217,22 @@ theorem simpleItem_noCh : ∀ (e : Item) (n : Nat), SimpleItem e → CmdsNoCh x 
   | .field f, n, h => by
     simp only [SimpleItem] at h
     simp only [itemCmds]
-    rcases h with h | h
+    rcases h with h | h | h
     · rw [fieldCmds_simple n f h]
       exact cmdsNoCh_line x _ (noCh_fieldLine hx n f h)
     · rw [fieldCmds_map n f h]
       exact cmdsNoCh_line x _ (noCh_mapLine hx n f h)
+    · rw [fieldCmds_lines n f h.loc, fieldLines_ind n f]
+      intro c hc
+      simp only [List.map_map, List.mem_map, Function.comp] at hc
+      obtain ⟨l, hl, rfl⟩ := hc
+      simp only []
+      apply noCh_ind hx
+      intro ch hch hcx
+      have := h.noch l hl ch hch
+      rcases hx.only with h1 | h1
+      · exact this.1 (hcx.trans h1)
+      · exact this.2 (hcx.trans h1)
   | .rpc _ _ _ _ _ _, _, h => h.elim
   | .block kw t l i name os kids, n, h => by
     simp only [SimpleItem] at h
